@@ -385,6 +385,49 @@ Fixpoint diff (v1 v2 : view) : list patch :=
   | VText id u2 => map (here id) (text_actions (text_of_view v1) u2)
   end.
 
+(* ---- the patch a local update emits: TransactionInner::finalize_op (transaction/inner.rs) for an op that
+   updates a map key or a list index (not an insert), given the resolved action, the id of the new op and
+   the register [r] the seek found (= the ops the new op supersedes).  With a conflicted register an
+   increment is reported as a Put of "the first counter found + z" with conflict = false
+   (inner.rs increment_replacement: ops.iter().find(is_counter)). ---- *)
+Definition first_counter (r : regobs) : option Z :=
+  match flat_map (fun iw => match snd iw with VC c => [c] | _ => [] end) r with
+  | c :: _ => Some c
+  | [] => None
+  end.
+
+Definition del_action (p : prop) : paction :=
+  match p with PMap k => DeleteMap k | PSeq i => DeleteSeq i 1 end.
+
+Definition put_pv (p : prop) (v : pvalue) (c : bool) : paction :=
+  match p with PMap k => PutMap k v c | PSeq i => PutSeq i v c end.
+
+Definition local_action (p : prop) (id : opid) (a : action) (r : regobs) : option paction :=
+  match a with
+  | APut v => Some (put_pv p (PVS v) false)
+  | AMake t => Some (put_pv p (PVO t id) false)
+  | ADel => Some (del_action p)
+  | AInc z =>
+    if (1 <? length r)%nat
+    then match first_counter r with
+         | Some c => Some (put_pv p (PVS (SCounter (c + z))) false)
+         | None => None
+         end
+    else Some (Increment p z)
+  | _ => None
+  end.
+
+(* what a view shows of a register: the winner as a patch value, and "more than one value" *)
+Definition pv_of_vobs (id : opid) (w : vobs) : pvalue :=
+  match w with VS s => PVS s | VC z => PVS (SCounter z) | VO t => PVO t id end.
+Definition entry_shell (r : regobs) : option (pvalue * bool) :=
+  match winner r with
+  | Some (id, w) => Some (pv_of_vobs id w, (1 <? length r)%nat)
+  | None => None
+  end.
+Definition shell_lookup (k : list N) (m : list (list N * (view * bool))) : option (pvalue * bool) :=
+  match mlookup k m with Some (c, f) => Some (pv_of c, f) | None => None end.
+
 (* ---- well-formed views: map keys strictly ascending, everywhere ---- *)
 Fixpoint keys_sorted {V} (m : list (list N * V)) : bool :=
   match m with
